@@ -82,15 +82,15 @@ chk('C06', 'model_checking',
 chk('C10', 'model_checking',
     'Nudge.tla judges raw route R and displayed route D of every connector of a scene: D keeps R\'s first and last point, has no more segments, still visits every checkpoint; interior segments of two '
     'connectors without a common endpoint are not collinear-overlapping when the channel between the nearest immovable things (buffered obstacle sides, first/last segments) has room; parallel interior '
-    'segments are coincident or at least d/10 apart. Scenes: corridor family (width 0..40 x 2..4 connectors x option/distance combinations) and seeded random scenes with checkpoints.',
+    'segments are coincident or at least d/10 apart. Scenes: corridor family (width 0..40 x 2..4 connectors x option/distance combinations), seeded random scenes with checkpoints, pin-attached families replayed through the object-level harness (segments hugging an obstacle side next to a fixed end segment; two checkpoints on one stretch followed by a z-bend that nudging centres), rows of aligned checkpoints.',
     'Known findings F13 (option moves endpoints/checkpoints), F11/F25/F34 (nudging assertions; F11 also kills the process), F26 (checkpoint excursion dropped), F35 (shared path ending at one connector\'s endpoint with nudgeSharedPathsWithCommonEndPoint off). Channel = common free interval of the whole sharing segments, room for k+1 spacings; segments carrying a checkpoint count as immovable. The reduced nudging distance is not observable: distances below d/10 are reported as observations only (DESIGN 10).',
     'TLA+ declarative nudging specification; record validation of raw/displayed route pairs', '4/C10')
 
 chk('C15', 'model_checking',
     'Lifecycle.tla models the ownership protocol of libavoid at object granularity (shapes, pins, junctions, connectors: unborn/queued/live/dying/freed; connector ends, pins and hyperedge registrations as references; '
     'documented preconditions as enabling conditions; transactions on/off). TLC checks for all legal histories to a depth that no reference to a freed object exists in any state. Histories are behaviours of the '
-    'specification (TLC simulation) replayed on an ASan+UBSan+LSan build of the real library; every completed execution is trace-validated against Lifecycle (each call an enabled action, live object sets equal at every '
-    'processing point); an execution that ends in a failed assertion, sanitizer report, crash or non-termination is rejected and reported. A last stage runs the conformance harnesses of the other four libraries (libvpsc, libcola, libtopology, libdialect, and the shortest-paths/heap templates) on the same sanitizer build over TLC-generated/seeded inputs and reports any sanitizer finding per allocation or access site.',
+    'specification (TLC simulation) replayed on an ASan+UBSan+LSan build of the real library; every completed execution is trace-validated against Lifecycle (each call an enabled action; at every processing point the live object sets, the shape rectangles and what every '
+    'connector end is attached to -- pin class of a shape, junction, free point -- equal the model\'s); an execution that ends in a failed assertion, sanitizer report, crash or non-termination is rejected and reported. A last stage runs the conformance harnesses of the other four libraries (libvpsc, libcola, libtopology, libdialect, and the shortest-paths/heap templates) on the same sanitizer build over TLC-generated/seeded inputs and reports any sanitizer finding per allocation or access site.',
     'Memory errors / UB below object level are seen by the sanitizers on the replayed histories, not by the specification; the object-level protocol model is libavoid only (2 shapes, 1 junction, 3 connectors), the other libraries are covered by the sanitizer stage alone. F10, F17, F18, F27, F37 and F50 (libdialect leaks) are known findings; F16, F7 and F49 were repaired (fix: commits 7e61e2d, 41ebabe, e517133).',
     'TLA+ object-lifecycle protocol; TLC-generated API histories replayed on a sanitizer build; trace validation', '4/C15')
 
